@@ -16,14 +16,12 @@ package s3event
 
 import (
 	"encoding/json"
-	"encoding/xml"
 	"fmt"
 	"os"
 	"sync"
 
 	"github.com/gofiber/fiber/v2"
 	"github.com/nats-io/nats.go"
-	"github.com/versity/versitygw/s3response"
 )
 
 type NatsEventSender struct {
@@ -69,15 +67,14 @@ func (ns *NatsEventSender) SendEvent(ctx *fiber.Ctx, meta EventMeta) {
 	}
 
 	if meta.EventName == EventObjectRemovedDeleteObjects {
-		var dObj s3response.DeleteObjects
-
-		if err := xml.Unmarshal(ctx.Body(), &dObj); err != nil {
+		objs, err := deletedObjects(ctx, meta)
+		if err != nil {
 			fmt.Fprintf(os.Stderr, "failed to parse delete objects input payload: %v\n", err.Error())
 			return
 		}
 
 		// Events aren't send in correct order
-		for _, obj := range dObj.Objects {
+		for _, obj := range objs {
 			if obj.Key == nil {
 				// an entry without a key: nothing was deleted for it
 				continue
